@@ -310,9 +310,9 @@ theorem wstep_forLoop (ih : AllW f) : ∀ t it stop step b σ, Inv σ → EnsAt 
 theorem wstep_bindParams (ih : AllW f) : ∀ t ps es vs acc σ, Inv σ → SlotsOK σ acc →
     EnsAt σ (bindParams (f+1) t ps es vs acc) SlotsPost := by
   intro t ps es vs acc σ hi hacc; wt_fn bindParams
-  · rename_i h σ1 h1 he hh _ _ _
-    exact ih.bindParams _ _ _ _ _ _ h1
-      (SlotsOK.cons ⟨(fun h => by cases h), fun l hl => by cases hl; exact hh.2⟩ (SlotsOK.mono he hacc))
+  · exact ih.bindParams _ _ _ _ _ _ (by assumption)
+      (SlotsOK.cons ⟨(fun h => by cases h), fun l hl => by cases hl; exact (by assumption : HolderPost _ _).2⟩
+        (SlotsOK.mono (by assumption) hacc))
   · exact ih.bindParams _ _ _ _ _ _ hi (SlotsOK.cons (SlotOK.plain rfl (ty_of_not_bne (by assumption))) hacc)
   · exact EnsAt.pure hi hacc.reverse
 
